@@ -10,7 +10,7 @@ HERE = os.path.dirname(os.path.abspath(__file__))
 sys.path.insert(0, HERE)
 from mutations import MUTATIONS
 
-WT = "/tmp/pvc_selftest_wt"
+WT = f"/tmp/pvc_selftest_wt_{os.getpid()}"      # one scratch worktree per run (several may run at once)
 
 
 def sh(cmd, **kw):
@@ -49,7 +49,7 @@ def main():
                 for prop in m["props"]:
                     if a.prop and prop != a.prop:
                         continue
-                    env = dict(os.environ, PVC_REPO=WT, PVC_EVIDENCE_DIR="/tmp/pvc_selftest_evidence")
+                    env = dict(os.environ, PVC_REPO=WT, PVC_EVIDENCE_DIR=f"/tmp/pvc_selftest_evidence_{os.getpid()}")
                     c = subprocess.run(["python3-vt", "-m", "pvc.cli", "check", prop, "--tier", "quick"], cwd=os.path.dirname(HERE),
                                        capture_output=True, text=True, env=env)
                     viol = [l for l in c.stdout.splitlines() if l.startswith("VIOLATION")]
@@ -63,7 +63,7 @@ def main():
                 open(path, "w", encoding="utf-8").write(src)
     finally:
         sh(f"git -C /repo worktree remove --force {WT}; git -C /repo worktree prune")
-        shutil.rmtree("/tmp/pvc_selftest_evidence", ignore_errors=True)
+        shutil.rmtree(f"/tmp/pvc_selftest_evidence_{os.getpid()}", ignore_errors=True)
     sys.exit(1 if bad else 0)
 
 
